@@ -66,11 +66,15 @@ def main():
         demo_dst = demo_dst.split("/", 3)[-1] if demo_dst.startswith("tmp/") else demo_dst[5:]
     meta["demo_location"] = demo_dst
     pkg_dir = os.path.dirname(demo_dst) or "."
+    # run exactly the tests the demonstration file defines
+    names = re.findall(r'^func (Test\w+)\(', open(demo).read(), re.M)
+    run_re = "^(" + "|".join(names) + ")$" if names else "Demo|demo"
+    meta["demo_tests"] = names
     try:
         # demo passes without the change
         shutil.copy(demo, os.path.join(REPO, demo_dst))
         race = "-race " if prop == "C11" else ""
-        rc, out = sh("go test %s-vet=off -count=1 -run 'Demo|demo' ./%s" % (race, pkg_dir), cwd=REPO)
+        rc, out = sh("go test %s-vet=off -count=1 -run '%s' ./%s" % (race, run_re, pkg_dir), cwd=REPO)
         meta["demo_passes_without_change"] = rc == 0
         os.remove(os.path.join(REPO, demo_dst))
         # apply
@@ -87,7 +91,7 @@ def main():
         if rc != 0:
             meta["tests_output_tail"] = out[-800:]
         shutil.copy(demo, os.path.join(REPO, demo_dst))
-        rc, out = sh("go test %s-vet=off -count=1 -run 'Demo|demo' ./%s" % (race, pkg_dir), cwd=REPO)
+        rc, out = sh("go test %s-vet=off -count=1 -run '%s' ./%s" % (race, run_re, pkg_dir), cwd=REPO)
         meta["demo_fails_with_change"] = rc != 0
         os.remove(os.path.join(REPO, demo_dst))
         # run the checks against the patched tree
